@@ -14,7 +14,7 @@ Not decided: bit-equality of floating-point results as such.
 """
 from ..effects import Effects, FnAnalysis, must_write_map, path_str, first_index, fields_of, obj_key
 from ..flow import Walker
-from ..sir import pp, strip, walk, calls, AnalysisBroken
+from ..sir import resolve_alias, pp, strip, walk, calls, AnalysisBroken
 from .. import model
 from . import persist
 
@@ -95,21 +95,31 @@ def run(db, chk):
 
         # ------------------------------------------------------------------ P3
         for fn in db.fns(unit=uname):
+            # iterations over an unordered container: range-for loops and std::for_each over begin()/end()
+            iters = []
             for n in walk(fn.body):
-                if n.get("k") != "rangefor":
-                    continue
-                t = fn.type(strip(n["range"]).get("t"))
+                if n.get("k") == "rangefor":
+                    iters.append((n["range"], n.get("body"), fn))
+                elif n.get("k") == "call" and n.get("bn") in ("std::for_each", "std::for_each_n") and n.get("a"):
+                    a0 = strip(n["a"][0])
+                    if a0.get("k") == "call" and a0.get("obj") is not None and \
+                            a0.get("bn", "").split("::")[-1] in ("begin", "cbegin"):
+                        for m in walk(n["a"][-1]):
+                            if m.get("k") == "lambda" and m.get("fid") in fn.unit.fns:
+                                lam = fn.unit.fns[m["fid"]]
+                                iters.append((a0["obj"], lam.body, lam))
+            for (rng, body, bfn) in iters:
+                t = fn.type(strip(rng).get("t"))
                 if "std::unordered_" not in t:
                     continue
-                var = n["var"]
                 sinks = []
                 an = FnAnalysis(eff, fn)
                 an.run()
-                rpaths = an.visit(n["range"])
+                rpaths = an.visit(rng)
                 if rpaths and all(p[0][0] in ("local", "tmp") for p in rpaths):
                     continue   # a container built during this very call: its order is a function
                                # of this call's inputs, not of the object's history
-                for c in walk(n.get("body")):
+                for c in walk(body):
                     k = c.get("k")
                     if k == "call" and c.get("obj") is not None and not c.get("cm"):
                         name = c.get("bn", "").split("::")[-1]
@@ -125,15 +135,15 @@ def run(db, chk):
                     ok = False
                     detail = ""
                     if bn.startswith("std::priority_queue::") and name in ("emplace", "push"):
-                        qt = fn.type(strip(c["obj"]).get("t"))
-                        ok, detail = comparator_total(db, fn, qt)
+                        qt = bfn.type(strip(c["obj"]).get("t"))
+                        ok, detail = comparator_total(db, bfn, qt)
                     elif bn.startswith("std::set::") or bn.startswith("std::unordered_set::") or \
                             bn.startswith("std::map::") or bn.startswith("std::unordered_map::"):
                         ok = True
                     else:
                         detail = "order-sensitive sink %s" % bn
                     chk.ob("C09-P3", "loop over %s in %s feeds %s [%s]"
-                           % (pp(n["range"]), fn.name, pp(c)[:60], uname), ok, where=fn.loc(c),
+                           % (pp(rng), fn.name, pp(c)[:60], uname), ok, where=bfn.loc(c),
                            function=fn.bn, construct="unordered->%s" % bn, detail=detail,
                            extra={"unit": uname})
 
